@@ -62,7 +62,7 @@ func (H) ID() string { return "C05" }
 
 // Faults implements core.Harness.
 func (H) Faults() core.FaultMenu {
-	return core.FaultMenu{MapOrder: true, MaxSteps: 4000, PCTSteps: 150}
+	return core.FaultMenu{MapOrder: true, MaxSteps: 12000, PCTSteps: 150}
 }
 
 // Decode implements core.Harness.
